@@ -23,15 +23,36 @@ RULE = ('histories of 1-30 calls over 1-3 Ipmi objects (pyipmi.create_connection
         'states; operations weighted over all families; arguments drawn boundary-biased from each '
         "parameter's full range (addresses from pools shared with the BMC generator plus uniform); every "
         'read is issued twice on the same address with a state change in between (the BMC moves by itself, '
-        'or a write of the same family, possibly through another connection).  A case = one call; distinct '
+        'or a write of the same family, possibly through another connection).  Reference-BMC states cover: HPM.1 '
+        'component descriptions over all non-NUL bytes incl. printable text with backslash sequences (pool shared '
+        'with the descriptors of find_component_id_by_descriptor), fan trays of both command-set revisions '
+        '(R1.0/R2.0: three-byte Set Fan Level only; R3.0: optional fourth byte), PICMG 3.x and OEM (F0h..FFh) '
+        'link types, second sensor state bytes with the reserved bit 7 returned as 1.  A case = one call; distinct '
         'by (operation, arguments, state digest); every case is non-trivial (a request reaches the BMC).')
 ASSUMPTIONS = [
     'the reference BMC (lean/PyIpmi/Spec/Bmc.lean) is my reading of IPMI v2.0 ch. 20/22/23/27/28/29/35, '
     'PICMG 3.0 ch. 3 and HPM.1; it is permissive (every address exists, reserved field values are stored as sent, '
     'parameter lengths are not policed)',
     'denotation of Python argument values (enum members and strings -> codes by meaning, 7-bit event receiver '
-    'address, LED durations in 10 ms units on write / ms on read, link type = type + 16*signalling class) is '
+    'address, LED durations in 10 ms units on write / ms on read) is '
     'part of the harness (harness/props/c07.py op table) and of Spec.Bmc.run',
+    'E-Keying link type (PICMG 3.0 link descriptor bits [19:12], one byte): LinkDescriptor.type / .sig_class name its low / '
+    'high nibble (signalling class of the PICMG 3.x types); an OEM link type (upper nibble Fh) is named by .type alone '
+    '(the published TYPE_OEM0..3 = F0h..F3h) with .sig_class 0 (Spec.Bmc.linkTypeAttrs).  On write the link type is handed '
+    'over as nibbles for every byte value, and as ONE number in .type only for the constants the library publishes '
+    '(TYPE_BASE..TYPE_PCIEXPRESS_FABRIC, TYPE_OEM0..3); other out-of-range attribute values (masked silently by the '
+    'bit-field) stay outside the property\'s "full range"',
+    'get_sensor_reading denotes the mask of the asserted states 0..14: bit 7 of response byte 5 is "reserved. Returned as 1b. '
+    'Ignore on read" (IPMI table 35-15) - the reference BMC returns it as 1 and the oracle ignores it; bits [7:6] of byte 4 '
+    '(reserved for threshold sensors, states 6/7 of discrete ones) cannot be told apart without the SDR and are handed on',
+    'set_fan_level(fru_id, fan_level) denotes the three-byte Set Fan Level request: override level := fan_level, the local '
+    'control state unchanged (the optional fourth byte of PICMG 3.0 R3.0 is not an argument of the call).  '
+    'write_set_fan_level is stated over the GENERATED layout of SetFanLevelReq: on a tree whose class carries a fourth plain '
+    'byte the Lean build fails (reported as broken) and the history run still finds and reports the failing input',
+    'HPM.1 component description = the characters before the NUL padding of the 12-byte field, one per byte; '
+    'get_component_properties is judged on WHICH properties it returns and on the description (capability flags and '
+    'versions are not judged); get_component_properties and find_component_id_by_descriptor are sequences of exchanges and '
+    'have no Lean model: exercised against the oracle only (evidence: exercised_only_ops)',
     'transport is substituted at the interface level: send_and_receive runs the real encode_message / '
     'decode_message and forwards (netfn, lun, cmd, data) to the driver; bridging, sessions and retries are other properties',
     'the theorems (Props/C07.lean) are about the Lean model of each operation (Model/Api/*.lean, one request/response '
@@ -208,8 +229,8 @@ def c_port(r):
     link, state = r
     if link is None:
         return 'nolink'
-    return 'ch=%d if=%d flags=%d type=%d ext=%d grp=%d state=%d' % (
-        link.channel, link.interface, link.link_flags, link.type + 16 * link.sig_class, link.extension,
+    return 'ch=%d if=%d flags=%d type=%d sig=%d ext=%d grp=%d state=%d' % (
+        link.channel, link.interface, link.link_flags, link.type, link.sig_class, link.extension,
         link.grouping_id, state)
 
 
@@ -247,6 +268,41 @@ def c_rollback(r):
     if not hasattr(r, 'rollback_status'):
         return 'None %s' % _o(getattr(r, 'percent_complete', None))
     return 'status=%s pct=%s' % (_o(r.rollback_status), _o(getattr(r, 'percent_complete', None)))
+
+
+def c_text(s):
+    """a string: hex of its characters (one byte each), characters above FFh as code points"""
+    if not isinstance(s, str):
+        return 'unexpected:%r' % (s,)
+    if all(ord(c) < 256 for c in s):
+        return _hex(s)
+    return 'cp:' + '.'.join('%d' % ord(c) for c in s)
+
+
+def c_descr(p):
+    return c_text(p.description)
+
+
+PROP_KINDS = ('ComponentPropertyGeneral', 'ComponentPropertyCurrentVersion', 'ComponentPropertyDescriptionString',
+              'ComponentPropertyRollbackVersion', 'ComponentPropertyDeferredVersion')
+
+
+def c_props(props):
+    """which of the properties 0..4 the component has, and its description (versions and capability flags are
+    not judged here)"""
+    kinds, descr = [], None
+    for p in props:
+        k = type(p).__name__
+        if k not in PROP_KINDS:
+            return 'unexpected:%s' % k
+        kinds.append(PROP_KINDS.index(k))
+        if k == 'ComponentPropertyDescriptionString':
+            descr = p.description
+    return 'props=%s descr=%s' % (','.join('%d' % k for k in kinds) or '-', c_text(descr))
+
+
+def c_opt(r):
+    return _o(r) if (r is None or (isinstance(r, int) and not isinstance(r, bool))) else 'unexpected:%r' % (r,)
 
 
 def c_lan_param(r):
@@ -318,6 +374,11 @@ def _priv_member(code):
     raise KeyError(code)
 
 
+def _hpm_const(name):
+    import pyipmi.hpm
+    return getattr(pyipmi.hpm, name)
+
+
 def _wd_config(t, ip=None):
     """t[1] = 'n': the don't-stop attribute is left untouched (None on a fresh object AND on an object read
     back with get_watchdog_timer, which is then re-used as applications do) - it denotes 0, "stop the timer"."""
@@ -357,10 +418,14 @@ def _led_state(t):
 
 def _link(t):
     from pyipmi.picmg import LinkDescriptor
-    iface, ch, flags, ty, ext, grp, _st = [int(x) for x in t]
+    iface, ch, flags, ty, ext, grp, _st, whole = [int(x) for x in t]
     d = LinkDescriptor()
     d.channel, d.interface, d.link_flags = ch, iface, flags
-    d.type, d.sig_class = ty % 16, ty // 16
+    if whole:
+        # the whole 8-bit link type in `type`, the way the published constants (TYPE_OEM0 = F0h …) are meant
+        d.type, d.sig_class = ty, 0
+    else:
+        d.type, d.sig_class = ty % 16, ty // 16
     d.extension, d.grouping_id = ext, grp
     return d
 
@@ -385,8 +450,11 @@ class Op(object):
         self.gen, self.call, self.canon = gen, call, canon
         self.changers = list(changers)
         self.denote = lambda tok: tok      # tokens as the specification reads them
-        # specific name of a result violation for (tokens, expected, observed), or None for the generic one
+        # specific name of a result violation for (tokens, expected, observed), or None for the generic one;
+        # '@op:field' names the whole signature (several operations showing one defect)
         self.sigfield = lambda tok, exp, obs: None
+        # the same for a write (result, exception or BMC state afterwards differ from the oracle)
+        self.sigwrite = lambda tok: None
 
 
 def _remember_wd(ip, w):
@@ -483,8 +551,16 @@ _op('disable_user', 'users', False, lambda r: _T(g_uid(r)), lambda ip, t: ip.dis
 # --- sensors / events
 _op('get_sensor_reading', 'sensors', True, lambda r: _T(g_sensor(r), r.randrange(4)),
     lambda ip, t: ip.get_sensor_reading(int(t[0]), int(t[1])), c_pair, ['mut:sensors', 'mut:sensors', 'mut:unavail', 'rearm_sensor_events'])
-OPS['get_sensor_reading'].sigfield = lambda tok, exp, obs: (
-    'states-while-unavailable' if exp == 'None None' and obs.startswith('None ') else None)
+def _sig_sensor_reading(tok, exp, obs):
+    if exp == 'None None' and obs.startswith('None '):
+        return 'states-while-unavailable'
+    e, o = exp.split(' '), obs.split(' ')
+    if len(e) == 2 and len(o) == 2 and e[0] == o[0] and e[1].isdigit() and o[1].isdigit() and int(o[1]) == int(e[1]) + 0x8000:
+        return 'state-bit-15'
+    return None
+
+
+OPS['get_sensor_reading'].sigfield = _sig_sensor_reading
 _op('set_sensor_thresholds', 'sensors', False,
     lambda r: _T(g_sensor(r), r.randrange(4), *[('n' if r.random() < 0.5 else g_byte(r)) for _ in range(6)]),
     lambda ip, t: ip.set_sensor_thresholds(int(t[0]), int(t[1]), **dict((k, _opt(v)) for k, v in zip(THR, t[2:]))), c_none)
@@ -510,6 +586,8 @@ _op('get_power_level', 'power', True, lambda r: _T(g_fru(r), r.randrange(4)),
     lambda ip, t: ip.get_power_level(int(t[0]), int(t[1])), c_power, ['mut:power'])
 _op('get_fan_speed_properties', 'fan', True, lambda r: _T(g_fru(r)), lambda ip, t: ip.get_fan_speed_properties(int(t[0])), c_fan_props, ['mut:fans'])
 _op('set_fan_level', 'fan', False, lambda r: _T(g_fru(r), g_byte(r)), lambda ip, t: ip.set_fan_level(int(t[0]), int(t[1])), c_none)
+# one defect, two faces: an R1.0/R2.0 fan tray refuses the four-byte request (C7h), an R3.0 one executes its fourth byte
+OPS['set_fan_level'].sigwrite = lambda tok: 'request-byte-4'
 _op('get_fan_level', 'fan', True, lambda r: _T(g_fru(r)), lambda ip, t: ip.get_fan_level(int(t[0])), c_pair, ['mut:fans', 'set_fan_level'])
 _op('get_led_state', 'led', True, lambda r: _T(g_fru(r), g_led(r)), lambda ip, t: ip.get_led_state(int(t[0]), int(t[1])), c_led,
     ['mut:leds', 'mut:leds', 'set_led_state'])
@@ -520,11 +598,25 @@ _op('set_fru_activation_policy', 'activation', False, lambda r: _T(g_fru(r), r.r
     lambda ip, t: ip.set_fru_activation_policy(int(t[0]), int(t[1])), c_none)
 for _n in ('set_fru_activation_lock', 'clear_fru_activation_lock', 'set_fru_deactivation_lock', 'clear_fru_deactivation_lock'):
     _op(_n, 'activation', False, lambda r: _T(g_fru(r)), (lambda n: lambda ip, t: getattr(ip, n)(int(t[0])))(_n), c_none)
-_op('set_port_state', 'port', False,
-    lambda r: _T(r.randrange(4) if r.random() < 0.3 else r.randrange(3), g_pchan(r), g_bits(4)(r), g_byte(r), g_bits(4)(r), g_byte(r), r.choice([0, 1, 1, g_byte(r)])),
-    lambda ip, t: ip.set_port_state(_link(t), int(t[6])), c_none)
+LINK_TYPES = [1, 2, 3, 4, 5, 0x32, 0xf0, 0xf1, 0xf2, 0xf3, 0xfe]    # PICMG 3.x (with signalling class), OEM GUID
+# link types the library publishes as values of LinkDescriptor.type (TYPE_BASE … TYPE_PCIEXPRESS_FABRIC, TYPE_OEM0..3):
+# only these are handed over as ONE number in `type` (sig_class 0); every other link type goes as type / sig_class nibbles
+PUBLISHED_LINK_TYPES = [1, 2, 3, 4, 5, 0xf0, 0xf1, 0xf2, 0xf3]
+
+
+def g_set_port(r):
+    ty = r.choice(LINK_TYPES) if r.random() < 0.5 else g_byte(r)
+    whole = 1 if (ty in PUBLISHED_LINK_TYPES and r.random() < (0.7 if ty >= 0xf0 else 0.3)) else 0
+    return _T(r.randrange(4) if r.random() < 0.3 else r.randrange(3), g_pchan(r), g_bits(4)(r), ty, g_bits(4)(r), g_byte(r),
+              r.choice([0, 1, 1, g_byte(r)]), whole)
+
+
+_op('set_port_state', 'port', False, g_set_port, lambda ip, t: ip.set_port_state(_link(t), int(t[6])), c_none)
+OPS['set_port_state'].sigwrite = lambda tok: 'oem-link-type' if (tok[7] == '1' and int(tok[3]) >= 16) else None
 _op('get_port_state', 'port', True, lambda r: _T(g_pchan(r), r.randrange(4) if r.random() < 0.3 else r.randrange(3)),
     lambda ip, t: ip.get_port_state(int(t[0]), int(t[1])), c_port, ['mut:ports', 'set_port_state'])
+OPS['get_port_state'].sigfield = lambda tok, exp, obs: (
+    'oem-link-type' if (' sig=0 ' in exp and ' sig=15 ' in obs and _field_of_diff(exp, obs) == 'type') else None)
 _op('get_pm_global_status', 'power', True, lambda r: [], lambda ip, t: ip.get_pm_global_status(), c_pm_global, ['mut:hpm'])
 _op('get_power_channel_status', 'power', True, lambda r: _T(r.choice([1, 2, 3, 16, g_byte(r)])),
     lambda ip, t: ip.get_power_channel_status(int(t[0])), c_pm_channel, ['mut:power'])
@@ -543,6 +635,32 @@ _op('get_target_upgrade_capabilities', 'hpm', True, lambda r: [], lambda ip, t: 
 _op('query_selftest_results', 'hpm', True, lambda r: [], lambda ip, t: ip.query_selftest_results(), c_selftest, ['mut:hpm'])
 _op('query_rollback_status', 'hpm', True, lambda r: [], lambda ip, t: ip.query_rollback_status(), c_rollback, ['mut:hpm'])
 OPS['query_rollback_status'].sigfield = lambda tok, exp, obs: None if (obs[:3] in ('py:', 'cc:') or obs.startswith('canon:')) else 'result'
+# Get Component Properties: the description string (selector 2), alone, within all properties of a component, and
+# as the key of find_component_id_by_descriptor.  Descriptions / descriptors come from a pool shared with the
+# driver's state generator (`descrPool` of Drivers/C07.lean) plus random printable text with backslashes.
+DESCR_POOL = [b'IPMC', b'fw\\update', b'A\\u0042C', b'ABC', b'\\U00000041', b'\\\\u0041', b'boot\\', b'\\u0000a',
+              b'\\x41', b'\\ud800', b'\\U00110000', b'FPGA #1']
+g_comp = _pool([0, 1, 2, 3, 4, 5, 6, 7], 256)
+
+
+def g_descriptor(r):
+    x = r.random()
+    if x < 0.7:
+        return r.choice(DESCR_POOL)
+    if x < 0.85:
+        return b'C%d' % r.randrange(8)           # description of a component the generator left at its default
+    return bytes(r.choice([92, 117, 48, 52, r.randrange(0x20, 0x7f)]) for _ in range(r.randint(0, 12)))
+
+
+_op('get_component_property', 'hpm', True, lambda r: _T(g_comp(r)),
+    lambda ip, t: ip.get_component_property(int(t[0]), _hpm_const('PROPERTY_DESCRIPTION_STRING')), c_descr, ['mut:hpm'])
+_op('get_component_properties', 'hpm', True, lambda r: _T(g_comp(r)),
+    lambda ip, t: ip.get_component_properties(int(t[0])), c_props, ['mut:hpm'])
+_op('find_component_id_by_descriptor', 'hpm', True, lambda r: _T(lean.hexs(g_descriptor(r))),
+    lambda ip, t: ip.find_component_id_by_descriptor(lean.unhex(t[0]).decode('latin-1')), c_opt, ['mut:hpm'])
+for _n in ('get_component_property', 'get_component_properties', 'find_component_id_by_descriptor'):
+    # one defect (the decoder of the description string) seen through three methods
+    OPS[_n].sigfield = lambda tok, exp, obs: '@get_component_property:description'
 
 FAMILIES = sorted(set(o.fam for o in OPS.values()))
 # send_channel_power: current_limit is a float in ampere, the wire carries tenths: only values x = k/10.0
@@ -591,6 +709,23 @@ def _field_of_diff(a, b):
             if x != y:
                 return key
     return 'result'
+
+
+def parse_ok(spec):
+    return spec != 'bad-op'
+
+
+def _state_diff(a, b):
+    """the stretch in which two state dumps differ, with a little context"""
+    ta, tb = a.split(' '), b.split(' ')
+    i = 0
+    while i < min(len(ta), len(tb)) and ta[i] == tb[i]:
+        i += 1
+    j = 0
+    while j < min(len(ta), len(tb)) - i and ta[-1 - j] == tb[-1 - j]:
+        j += 1
+    lo = max(0, i - 14)
+    return '… %s … | … %s …' % (' '.join(ta[lo:max(i + 1, len(ta) - j) + 3]), ' '.join(tb[lo:max(i + 1, len(tb) - j) + 3]))
 
 
 class Outcome(object):
@@ -652,6 +787,7 @@ def run_history(drv, hist, modelled, ctx=None, verbose=False):
         if spec == 'bad-op':
             raise lean.LeanError('driver does not know: ' + line)
         exp_dig, exp_res = spec.split(' ', 1)
+        spec_dump = drv.ask('specdump %d %s' % (bi, line)) if (verbose and parse_ok(spec)) else None
         is_modelled = st['op'] in modelled or '*' in modelled
         model = model_req = None
         if is_modelled:
@@ -671,6 +807,8 @@ def run_history(drv, hist, modelled, ctx=None, verbose=False):
         except Exception as e:  # noqa
             obs = 'py:' + type(e).__name__
         now = [drv.ask('digest %d' % i) for i in range(nb)]
+        if verbose and now[bi] != exp_dig and spec_dump not in (None, 'bad-op'):
+            out.trace.append('  BMC state after step %d, spec | code: %s' % (idx, _state_diff(spec_dump, drv.ask('dump %d' % bi))))
         if verbose:
             wire = '; '.join('netfn %02xh lun %d cmd %02xh data %s' % (e[0], e[1], e[2], e[3] or '-') for e in ifaces[k].log[log_from:])
             out.trace.append('  step %d conn %d bmc %d: %s -> code: %s | spec: %s%s   [on the wire: %s]' % (
@@ -684,6 +822,12 @@ def run_history(drv, hist, modelled, ctx=None, verbose=False):
                 ctx.count('lan_read:' + ('revision-only channel %s' % ('0' if tok[0] == '0' else '1-15') if tok[4] == '1' else 'data'))
             if st['op'] == 'get_sensor_reading':
                 ctx.count('sensor_read:' + ('reading/state unavailable' if exp_res == 'None None' else 'available'))
+            if st['op'] == 'get_component_property' and not exp_res.startswith('cc:'):
+                ctx.count('description_read:' + ('with backslash' if b'\\' in lean.unhex(exp_res) else 'without backslash'))
+            if st['op'] == 'get_port_state' and ' type=' in exp_res:
+                ctx.count('link_type_read:' + ('OEM (F0h..FFh)' if int(exp_res.split(' type=')[1].split(' ')[0]) >= 0xf0 else 'PICMG 3.x / other'))
+            if st['op'] == 'set_fan_level':
+                ctx.count('fan_tray:' + drv.ask('fanrev %d %s' % (bi, tok[0])))
             if st['op'] == 'query_rollback_status':
                 ctx.count('rollback_read:mask %s, estimate %s' % (
                     'zero' if exp_res.startswith('status=0 ') else 'non-zero',
@@ -693,12 +837,12 @@ def run_history(drv, hist, modelled, ctx=None, verbose=False):
             if op.read:
                 fld = op.sigfield(tok, exp_res, obs) or _field_of_diff(exp_res, obs)
             else:
-                fld = 'raises' if (obs.startswith('py:') or obs.startswith('cc:')) else 'result'
-            viol = ('C07:%s:%s' % (st['op'], fld),
+                fld = op.sigwrite(tok) or ('raises' if (obs.startswith('py:') or obs.startswith('cc:')) else 'result')
+            viol = ('C07:' + fld[1:] if fld.startswith('@') else 'C07:%s:%s' % (st['op'], fld),
                     '%s(%s) returned/raised %s, a conforming BMC in this state means %s' % (st['op'], ' '.join(tok), obs, exp_res),
                     idx, exp_res, obs)
         elif now[bi] != exp_dig:
-            viol = ('C07:%s:state' % st['op'],
+            viol = ('C07:%s:%s' % (st['op'], op.sigwrite(tok) or 'state'),
                     '%s(%s) left the BMC in a state other than the one the arguments denote' % (st['op'], ' '.join(tok)),
                     idx, 'digest ' + exp_dig, 'digest ' + now[bi])
         else:
@@ -891,6 +1035,27 @@ def directed_histories(rng):
         H([C('get_lan_config_param', ch, sel, 0, 0, 1), C('get_lan_config_param', ch, sel, 0, 0, 0),
            {'mut': 0, 'seed': rng.randrange(1 << 30), 'fam': 'lan'}, C('get_lan_config_param', ch, sel, 0, 0, 1),
            C('get_lan_config_param', (ch + 1) % 16, sel, 0, 0, 1), C('get_lan_config_param', ch, (sel + 1) % 256, 1, 2, 1)])
+    # HPM.1 component descriptions (printable text with backslash sequences, any non-NUL bytes): every component id, alone,
+    # within all properties, and as the key of find_component_id_by_descriptor
+    for k in range(4):
+        H([{'mut': 0, 'seed': rng.randrange(1 << 30), 'fam': 'hpm'}]
+          + [C('get_component_property', i) for i in range(8)]
+          + [C('get_component_properties', i) for i in (k, k + 4, 8)]
+          + [C('find_component_id_by_descriptor', lean.hexs(d)) for d in DESCR_POOL[k::4]]
+          + [C('find_component_id_by_descriptor', lean.hexs(b'C%d' % i)) for i in (k, k + 4)])
+    # fan trays of both revisions (R1.0/R2.0: three request bytes only; R3.0: optional fourth byte = local control enable
+    # state): the override level is set, local control stays as it is
+    for k in range(2):
+        H([{'mut': 0, 'seed': rng.randrange(1 << 30), 'fam': 'fans'}] if k else []
+          + [c for fru in (0, 1, 2, 3, 0xfe) for c in (C('get_fan_level', fru), C('set_fan_level', fru, 9 + fru % 5), C('get_fan_level', fru))])
+    # E-Keying link types: PICMG 3.x types with a signalling class and the OEM types, given as one number in
+    # LinkDescriptor.type (TYPE_OEMx) and as nibbles; written, then read back
+    for i, ty in enumerate(LINK_TYPES):
+        for whole in ((0, 1) if ty in PUBLISHED_LINK_TYPES else (0,)):
+            H([C('set_port_state', i % 3, 5, 15, ty, 1, 0x77, 1, whole), C('get_port_state', 5, i % 3)])
+    for _ in range(2):
+        H([{'mut': 0, 'seed': rng.randrange(1 << 30), 'fam': 'ports'}]
+          + [C('get_port_state', ch, i) for i in (0, 1, 2) for ch in (0, 1, 5, 63)])
     # HPM.1 rollback status: component masks and completion estimates (absent, 0, non-zero) as the BMC moves
     for _ in range(6):
         H([C('query_rollback_status'), {'mut': 0, 'seed': rng.randrange(1 << 30), 'fam': 'hpm'}, C('query_rollback_status'),
@@ -995,7 +1160,9 @@ def probe_variants():
     """Which variant of the operations with a known defect does the tree under test carry?  Letters for
     the driver's `model` command (Model.Api.Variant): l = LED override decode as shipped, p = get_port_state
     as shipped, r = get_lan_config_param(revision_only=1) as shipped (channel 0, rsp.data), b = RollbackStatus
-    without the component mask, u = get_sensor_reading builds states while reading/state is unavailable."""
+    without the component mask, u = get_sensor_reading builds states while reading/state is unavailable, d = HPM.1
+    description string through raw_unicode_escape, f = fourth request byte of Set Fan Level, o = link types above 0Fh
+    (TYPE_OEMx) cut to a nibble / read back as nibbles, s = reserved bit 7 of the second state byte reported as state 15."""
     fresh_pyipmi()
     from pyipmi.msgs import decode_message
     from pyipmi.msgs.picmg import GetFruLedStateRsp
@@ -1037,6 +1204,26 @@ def probe_variants():
     if not _probe([0, 0x10, 0xe0, 0xc1, 0x80], lambda ip: ip.get_sensor_reading(1, 2),
                   lambda r, reqs: r == (None, None)):
         v += 'u'
+    # description string: one character per byte, a backslash is a character
+    if not _probe([0, 0] + list(b'A\\u0042C\x00\x00\x00\x00'), lambda ip: ip.get_component_property(2, _hpm_const('PROPERTY_DESCRIPTION_STRING')),
+                  lambda r, reqs: r.description == 'A\\u0042C'):
+        v += 'd'
+    # Set Fan Level: picmg id, FRU id, fan level - three bytes
+    if not _probe([0, 0], lambda ip: ip.set_fan_level(3, 9), lambda r, reqs: reqs == [bytes([0, 3, 9])]):
+        v += 'f'
+    # OEM link type F0h: written as type nibble 0 + class nibble Fh, read back as TYPE_OEM0
+    def _oem(ip):
+        from pyipmi.picmg import LinkDescriptor
+        d = LinkDescriptor()
+        d.channel, d.interface, d.link_flags, d.type, d.sig_class, d.extension, d.grouping_id = 5, 1, 15, LinkDescriptor.TYPE_OEM0, 0, 1, 0x77
+        return ip.set_port_state(d, 1)
+    if not (_probe([0, 0], _oem, lambda r, reqs: reqs == [bytes([0, 0x45, 0x0f, 0x1f, 0x77, 1])])
+            and _probe([0, 0, 0x45, 0x0f, 0x1f, 0x77, 1], lambda ip: ip.get_port_state(5, 1),
+                       lambda r, reqs: r[0].type == 0xf0 and r[0].sig_class == 0)):
+        v += 'o'
+    # reserved bit 7 of the second state byte is no state
+    if not _probe([0, 0x10, 0xc0, 0x01, 0x82], lambda ip: ip.get_sensor_reading(1, 0), lambda r, reqs: r == (0x10, 0x0201)):
+        v += 's'
     return v or '-'
 
 
@@ -1092,7 +1279,9 @@ def run(ctx):
     variant = probe_variants()
     ctx.extra['model_variant'] = dict((k, 'as shipped' if c in variant else 'intended') for k, c in (
         ('led_override_decode', 'l'), ('get_port_state_no_link', 'p'), ('get_lan_config_param_revision_only', 'r'),
-        ('query_rollback_status_result', 'b'), ('get_sensor_reading_states_while_unavailable', 'u')))
+        ('query_rollback_status_result', 'b'), ('get_sensor_reading_states_while_unavailable', 'u'),
+        ('component_description_decoder', 'd'), ('set_fan_level_request_length', 'f'), ('oem_link_type', 'o'),
+        ('get_sensor_reading_state_bit_15', 's')))
     rng = ctx.rng('c07')
     n_hist = 260 if ctx.tier == 'quick' else 6000
     budget = 40 if ctx.tier == 'quick' else 600
